@@ -390,6 +390,12 @@ def run(ctx):
     r05a(ctx)
     r05b(ctx)
     r05c(ctx)
+    # premise of 'hard-sampling mode': the request reaches every quantizer through its owner
+    from .c11 import options_reach_owned_quantizers
+    options_reach_owned_quantizers(ctx, 'R05c')
+    # the spec values are handed out by reference: no cost function updates them in place
+    from . import c12
+    c12.r12b(ctx, rule='R05i')
     ctx.assume('vars(layer) contains the attributes assigned by the __init__ chain of the torch '
                'base class (parsed from torch source) and by the repository class')
 
